@@ -594,6 +594,7 @@ func runC14(c *Ctx, r *Rec) {
 		r.verdict("D3-views", c.fdName(fd), c.pos(fd.Pos()), "one element per visited entry, taken from that entry", bad)
 	}
 	r.floor("D3-views", 3)
+	checkNoSecondLookup(c, r, "D3-view-values-from-entries")
 
 	// ---- D4 loops
 	for _, n := range []*types.Named{mp, cls} {
@@ -803,4 +804,53 @@ func entryStoreOK(info *types.Info, fd *ast.FuncDecl, loop ast.Stmt) string {
 		return "key and value are taken from different associations"
 	}
 	return ""
+}
+
+// checkNoSecondLookup: the snapshot views of the map type (AsArray, GetIterator) take each value
+// from the entry they visit.  A value fetched by looking the visited key up again (recv[key],
+// recv.GetValue(key)) is not that entry's value for keys that do not equal themselves (a NaN
+// float, or a struct/array/interface key holding one): the lookup finds nothing and the view
+// shows the zero value instead of what is in the map.
+func checkNoSecondLookup(c *Ctx, r *Rec, rule string) {
+	mp, err := c.impl("collection", "MapLike")
+	if err != nil || mp == nil {
+		return
+	}
+	info := c.info("collection")
+	ms := c.methodsOf(mp)
+	for _, nm := range []string{"AsArray", "GetIterator"} {
+		fd := ms[nm]
+		if fd == nil || fd.Body == nil {
+			continue
+		}
+		recv := recvObj(info, fd)
+		construct := c.fdName(fd)
+		bad := ""
+		n := 0
+		for _, l := range loopsIn(fd.Body) {
+			inspectNoLit(l, func(x ast.Node) bool {
+				_, mname, call, ok := methodCall(x)
+				if !ok || mname != "Make" || len(call.Args) != 2 {
+					return true
+				}
+				n++
+				src := resolveInit(info, fd, call.Args[1])
+				if ix, ok := src.(*ast.IndexExpr); ok && isObj(info, ix.X, recv) {
+					bad = fmt.Sprintf("the value of the association made at %s is read with a second lookup %s", c.pos(call.Pos()), exprStr(src))
+				}
+				if rx, mn, _, ok := methodCall(src); ok && mn == "GetValue" && isObj(info, rx, recv) {
+					bad = fmt.Sprintf("the value of the association made at %s is read with a second lookup %s", c.pos(call.Pos()), exprStr(src))
+				}
+				return true
+			})
+		}
+		switch {
+		case bad != "":
+			r.fail(rule, construct, c.pos(fd.Pos()), bad+": for a key that does not equal itself (NaN) the lookup finds nothing and the view shows the zero value instead of the entry that is in the map")
+		case n == 0:
+			r.skip(rule, construct, c.pos(fd.Pos()), "no association is made in a loop of this method")
+		default:
+			r.ok(rule, construct, c.pos(fd.Pos()), "no association's value comes from a second lookup of the key")
+		}
+	}
 }
